@@ -413,6 +413,9 @@ func firstStacks(st string) string {
 
 func genConc(t *rapid.T) ConcProg {
 	p := ConcProg{Signed: rapid.Bool().Draw(t, "signed"), Workers: rapid.IntRange(2, 4).Draw(t, "workers")}
+	if raceEnabled {
+		p.Signed = false
+	}
 	n := rapid.IntRange(2, 6).Draw(t, "nspecs")
 	for i := 0; i < n; i++ {
 		p.Specs = append(p.Specs, *genSpec(t))
